@@ -538,83 +538,89 @@ def check_objective(rep, prog, m, fn):
 
 
 def check_projection(rep, prog, m):
+    """_project_params_down / _project_params_up on every pattern of fixed and free slots up to four parameters (abstract execution
+    with concrete patterns and symbolic values): down keeps exactly the free entries in order, up puts the k-th entry of its
+    argument into the k-th free slot and the fixed value into every fixed slot; None means 'nothing fixed'; a scalar argument of up
+    is one free value."""
+    import itertools
+    from sa import miniexec as mx
+    from sa import alpha as _alpha
     down = prog.func(INF, '_project_params_down')
     up = prog.func(INF, '_project_params_up')
     rel = m.rel
-    # down: for (curr, fixed) in zip(pin, fixed_params): if fixed is None: append(curr)
-    ok = False
-    det = ''
-    for n in own_nodes(down):
-        if isinstance(n, ast.For):
-            it = n.iter
-            if isinstance(it, ast.Call) and dotted(it.func) == 'enumerate' and it.args:
-                it = it.args[0]
-                tgt = n.target.elts[1] if isinstance(n.target, ast.Tuple) and len(n.target.elts) == 2 else None
-            else:
-                tgt = n.target
-            if isinstance(it, ast.Call) and dotted(it.func) == 'zip' and [ast.unparse(a) for a in it.args] == ['pin', 'fixed_params'] \
-                    and isinstance(tgt, ast.Tuple) and len(tgt.elts) == 2:
-                cv, fv = [t.id for t in tgt.elts]
-                ifs = [x for x in n.body if isinstance(x, ast.If)]
-                if len(ifs) == 1 and len(n.body) == 1 and not ifs[0].orelse:
-                    t = ifs[0].test
-                    okt = isinstance(t, ast.Compare) and isinstance(t.ops[0], ast.Is) and ast.unparse(t.left) == fv \
-                        and isinstance(t.comparators[0], ast.Constant) and t.comparators[0].value is None
-                    b = ifs[0].body
-                    oka = len(b) == 1 and isinstance(b[0], ast.Expr) and isinstance(b[0].value, ast.Call) and \
-                        _last(dotted(b[0].value.func)) == 'append' and ast.unparse(b[0].value.args[0]) == cv
-                    ok = okt and oka
-                    det = 'keeps %s where %s' % (cv, ast.unparse(t))
-    if not det:
-        # the same selection written as a comprehension: [curr for (curr, fixed) in zip(pin, fixed_params) if <fixed is None>]
-        for n in own_nodes(down):
-            if isinstance(n, (ast.ListComp, ast.GeneratorExp)) and len(n.generators) == 1:
-                g = n.generators[0]
-                it, tgt = g.iter, g.target
-                if isinstance(it, ast.Call) and dotted(it.func) == 'enumerate' and it.args and isinstance(tgt, ast.Tuple) and len(tgt.elts) == 2:
-                    it, tgt = it.args[0], tgt.elts[1]
-                if isinstance(it, ast.Call) and dotted(it.func) == 'zip' and [ast.unparse(a) for a in it.args] == ['pin', 'fixed_params'] \
-                        and isinstance(tgt, ast.Tuple) and len(tgt.elts) == 2 and all(isinstance(t_, ast.Name) for t_ in tgt.elts) and len(g.ifs) == 1:
-                    cv, fv = [t_.id for t_ in tgt.elts]
-                    t = g.ifs[0]
-                    okt = isinstance(t, ast.Compare) and len(t.ops) == 1 and isinstance(t.ops[0], ast.Is) and ast.unparse(t.left) == fv \
-                        and isinstance(t.comparators[0], ast.Constant) and t.comparators[0].value is None
-                    ok = okt and ast.unparse(n.elt) == cv
-                    det = 'keeps %s where %s%s' % (ast.unparse(n.elt), ast.unparse(t), '' if okt else ' (a fixed value of 0 or an empty value is not None: the test must be `is None`)')
-    rep.ob('R-TPL', '_project_params_down', ok, det or 'selection loop not recognised', rel, down.lineno, what='keeps exactly the entries whose fixed value is None, in order')
-    ok = False
-    det = ''
-    for n in own_nodes(up):
-        if isinstance(n, ast.For) and isinstance(n.iter, ast.Call) and dotted(n.iter.func) == 'enumerate' \
-                and ast.unparse(n.iter.args[0]) == 'fixed_params' and isinstance(n.target, ast.Tuple):
-            iv, vv = [t.id for t in n.target.elts]
-            ifs = [x for x in n.body if isinstance(x, ast.If)]
-            if len(ifs) == 1 and len(n.body) == 1:
-                t = ifs[0].test
-                okt = isinstance(t, ast.Compare) and isinstance(t.ops[0], ast.Is) and ast.unparse(t.left) == vv and \
-                    isinstance(t.comparators[0], ast.Constant) and t.comparators[0].value is None
-                b, e = ifs[0].body, ifs[0].orelse
-                okb = len(b) == 2 and isinstance(b[0], ast.Assign) and isinstance(b[0].targets[0], ast.Subscript) and \
-                    ast.unparse(b[0].targets[0].slice) == iv and isinstance(b[0].value, ast.Subscript) and ast.unparse(b[0].value.value) == 'pin' \
-                    and isinstance(b[1], ast.AugAssign) and isinstance(b[1].op, ast.Add) and ast.unparse(b[1].value) == '1' \
-                    and ast.unparse(b[1].target) == ast.unparse(b[0].value.slice)
-                oke = len(e) == 1 and isinstance(e[0], ast.Assign) and ast.unparse(e[0].targets[0]) == ast.unparse(b[0].targets[0]) if okb else False
-                oke = oke and ast.unparse(e[0].value) in ('fixed_params[%s]' % iv, vv)
-                ok = okt and okb and oke
-                det = 'free slots filled in order from pin, fixed slots from fixed_params'
-            elif len(ifs) == 1 and len(n.body) == 2 and n.body[0] is ifs[0] and not ifs[0].orelse and isinstance(n.body[1], ast.Assign):
-                # the same refill with the value chosen first: if v is None: v = pin[k]; k += 1   then   pout[i] = v
-                t = ifs[0].test
-                okt = isinstance(t, ast.Compare) and isinstance(t.ops[0], ast.Is) and ast.unparse(t.left) == vv and \
-                    isinstance(t.comparators[0], ast.Constant) and t.comparators[0].value is None
-                b = ifs[0].body
-                okb = len(b) == 2 and isinstance(b[0], ast.Assign) and ast.unparse(b[0].targets[0]) == vv and isinstance(b[0].value, ast.Subscript) and ast.unparse(b[0].value.value) == 'pin' \
-                    and isinstance(b[1], ast.AugAssign) and isinstance(b[1].op, ast.Add) and ast.unparse(b[1].value) == '1' and ast.unparse(b[1].target) == ast.unparse(b[0].value.slice)
-                st2 = n.body[1]
-                oke = isinstance(st2.targets[0], ast.Subscript) and ast.unparse(st2.targets[0].slice) == iv and ast.unparse(st2.value) == vv
-                ok = okt and okb and oke
-                det = 'free slots filled in order from pin, fixed slots keep their fixed values'
-    rep.ob('R-TPL', '_project_params_up', ok, det or 'refill loop not recognised', rel, up.lineno, what='refills the free slots in order and the fixed slots with their fixed values')
+    known = _alpha.load_table().get('__params__', {}).get(rel)
+    known = set(known) if known is not None else None
+
+    def hook(nm, args, kwargs):
+        if nm.split('.')[-1] == 'isscalar' and len(args) == 1:
+            return not isinstance(args[0], (list, tuple)) and not (isinstance(args[0], mx.Sym) and args[0].length is not None)
+        return NotImplemented
+
+    def content(value, events):
+        """the entries of the returned vector: from numpy.array([..]) / a list, or from the stores into a zeros/empty array"""
+        c = mx.call_of(value, 'array') or mx.call_of(value, 'asarray')
+        if c is not None and c[0] and isinstance(c[0][0], (list, tuple)):
+            return [mx.show(x) for x in c[0][0]]
+        if isinstance(value, (list, tuple)):
+            return [mx.show(x) for x in value]
+        z = mx.call_of(value, 'zeros') or mx.call_of(value, 'empty')
+        if z is not None and z[0] and isinstance(z[0][0], int):
+            cells = [None] * z[0][0]
+            for e in events:
+                if e[0] == 'setitem' and mx.show(e[4]) == mx.show(value) and isinstance(e[2], int) and 0 <= e[2] < len(cells):
+                    cells[e[2]] = mx.show(e[3])
+                elif e[0] in ('setitem', 'augitem') and mx.show(e[4] if e[0] == 'setitem' else e[1]) == mx.show(value):
+                    return None
+            return cells
+        return None
+    badd, badu, n_runs = [], [], 0
+    try:
+        for n in range(1, 5):
+            for pattern in itertools.product((None, 'F'), repeat=n):
+                fixed = [None if x is None else mx.Sym('f%d' % k) for k, x in enumerate(pattern)]
+                free = [k for k, x in enumerate(pattern) if x is None]
+                tag = 'fixed pattern %s' % ''.join('-' if x is None else 'F' for x in pattern)
+                # down
+                pin = [mx.Sym('p%d' % k) for k in range(n)]
+                it = mx.Interp(prog, m, known_functions=known, call_hook=hook)
+                paths = [p_ for p_ in it.run(down, {'pin': pin, 'fixed_params': list(fixed)}) if p_[0][0] == 'return']
+                n_runs += 1
+                got = content(paths[0][0][1], paths[0][1]) if len(paths) == 1 else None
+                if got != ['p%d' % k for k in free]:
+                    badd.append('%s: returns %s' % (tag, got if got is not None else mx.show(paths[0][0][1])[:50] if paths else 'nothing'))
+                # up
+                pin = [mx.Sym('q%d' % k) for k in range(len(free))]
+                it = mx.Interp(prog, m, known_functions=known, call_hook=hook)
+                paths = [p_ for p_ in it.run(up, {'pin': pin, 'fixed_params': list(fixed)}) if p_[0][0] == 'return']
+                n_runs += 1
+                got = content(paths[0][0][1], paths[0][1]) if len(paths) == 1 else None
+                want = ['q%d' % free.index(k) if k in free else 'f%d' % k for k in range(n)]
+                if got != want:
+                    badu.append('%s: returns %s, expected %s' % (tag, got if got is not None else mx.show(paths[0][0][1])[:50] if paths else 'nothing', want))
+                if len(free) == 1:
+                    it = mx.Interp(prog, m, known_functions=known, call_hook=hook)
+                    paths = [p_ for p_ in it.run(up, {'pin': mx.Sym('q0'), 'fixed_params': list(fixed)}) if p_[0][0] == 'return']
+                    got = content(paths[0][0][1], paths[0][1]) if len(paths) == 1 else None
+                    if got != want:
+                        badu.append('%s with a scalar argument: returns %s' % (tag, got))
+        # nothing fixed at all; a pattern of the wrong length
+        for fn_, lst in ((down, badd), (up, badu)):
+            it = mx.Interp(prog, m, known_functions=known, call_hook=hook)
+            paths = it.run(fn_, {'pin': mx.Sym('pin', length=3), 'fixed_params': None})
+            if not (len(paths) == 1 and paths[0][0][0] == 'return' and mx.show(paths[0][0][1]) == 'pin'):
+                lst.append('fixed_params=None does not return the argument unchanged')
+        it = mx.Interp(prog, m, known_functions=known, call_hook=hook)
+        paths = it.run(down, {'pin': [mx.Sym('p0'), mx.Sym('p1')], 'fixed_params': [None, None, mx.Sym('f2')]})
+        if any(p_[0][0] == 'return' for p_ in paths):
+            badd.append('a pattern longer than the parameter vector is accepted')
+    except mx.Undecidable as e:
+        rep.ob('R-TPL', '_project_params_down', False, 'selection loop not recognised: %s' % e, rel, down.lineno, what='keeps exactly the entries whose fixed value is None, in order')
+        rep.ob('R-TPL', '_project_params_up', False, 'refill loop not recognised: %s' % e, rel, up.lineno, what='refills the free slots in order and the fixed slots with their fixed values')
+        return
+    rep.ob('R-TPL', '_project_params_down', not badd, '; '.join(badd[:2]) if badd else 'every pattern of 1-4 slots: the free entries, in order (%d runs)' % n_runs, rel, down.lineno,
+           what='keeps exactly the entries whose fixed value is None, in order')
+    rep.ob('R-TPL', '_project_params_up', not badu, '; '.join(badu[:2]) if badu else 'every pattern of 1-4 slots: k-th value into the k-th free slot, fixed values into their slots (%d runs)' % n_runs, rel, up.lineno,
+           what='refills the free slots in order and the fixed slots with their fixed values')
 
 
 def _const(x):
